@@ -527,6 +527,9 @@ func (e *escaper) escapeTree(c context, node parse.Node, name string, line int) 
 		if dt == nil {
 			dt = template.New(dname)
 			dt.Tree = t.Tree.Copy()
+			if p := e.ns.pristine[name]; p != nil {
+				dt.Tree = p.Copy()
+			}
 			dt.Tree.Name = dname
 			e.derived[dname] = dt
 		}
@@ -776,6 +779,14 @@ func (e *escaper) editTextNode(n *parse.TextNode, text []byte) {
 func (e *escaper) commit() {
 	for name := range e.output {
 		e.template(name).Funcs(funcs)
+	}
+	for name := range e.output {
+		if _, ok := e.ns.pristine[name]; !ok {
+			if e.ns.pristine == nil {
+				e.ns.pristine = map[string]*parse.Tree{}
+			}
+			e.ns.pristine[name] = e.template(name).Tree.Copy()
+		}
 	}
 	// Any template from the name space associated with this escaper can be used
 	// to add derived templates to the underlying text/template name space.
